@@ -54,6 +54,10 @@ def all_inf_batch(tr):
     return None
 
 
+UNTRACKED_CLAUSES = {"RS_WholeCopies", "MP_Coherent", "MB_SameSlots", "SW_PropCoherent", "SW_Update", "ME_Slots", "CM_Coherent", "CM_Append",
+                     "MP_Calls", "MP_Evals", "SW_Evals", "ME_Calls", "CallsExact", "PO_Rows"}
+
+
 def attribute(ck, pid, traces, fails, extra_props=()):
     """Report failures whose clause belongs to `pid`. Returns counters."""
     counters = {"clause_failures_this_property": 0, "clause_failures_other_properties": 0, "spec_deviations": 0}
@@ -62,6 +66,8 @@ def attribute(ck, pid, traces, fails, extra_props=()):
         tr = traces[f["tid"] - 1]
         ev = tr["events"][f["l"] - 1]
         for cl in f["clauses"]:
+            if tr["meta"].get("untracked") and cl in UNTRACKED_CLAUSES:
+                continue  # likelihood evaluated in other processes: provenance / evaluation counts unobservable
             prop = psrun.CLAUSE_PROPERTY.get(cl)
             props = {prop} if prop else set()
             if not props:
